@@ -37,3 +37,55 @@ Proof.
   - rewrite Hu. congruence.
   - rewrite Ha, Hsec. unfold to_checks. rewrite map_map. reflexivity.
 Qed.
+
+(* ------------------------------------------------------------------ *)
+(* Cross-artifact theorem for C05 / C06: every parameter the OpenAPI document shows for an
+   operation is read by the generated handler of that operation from the documented location
+   under the documented name. *)
+From Gleece Require Import Model.Router Model.RouterParams Proofs.RouterParamsProofs.
+
+Lemma Forall2_In_l {A B} (R : A -> B -> Prop) l r x :
+  Forall2 R l r -> In x l -> exists y, In y r /\ R x y.
+Proof.
+  intros H. induction H as [|a b l r Hab H IH]; intros Hin; [contradiction|].
+  destruct Hin as [E|Hin].
+  - subst. exists b; split; [left; reflexivity|exact Hab].
+  - destruct (IH Hin) as [y [Hy HR]]. exists y; split; [right; exact Hy|exact HR].
+Qed.
+
+Theorem documented_params_are_bound (e : engine) (p : project) (d : list operation)
+        (hs : list (list tparam * list str)) :
+  spec_ops p = Some d -> router_params_ok e p hs = true ->
+  forall o, In o d ->
+  exists c m h, In (c, m) (routes_of p) /\ In h hs /\ o_id o = m_name m /\
+    forall dp, In dp (o_params o) ->
+    exists prm t, In prm (m_params m) /\ pa_ctx prm = false /\ In t (fst h) /\
+      op_name dp = wire_name prm /\ op_in dp = lower_loc (pa_loc prm) /\
+      (forall w, In w (tp_wires t) -> w = op_name dp) /\
+      forallb (source_ok e (pa_loc prm) (tp_var t)) (tp_sources t) = true.
+Proof.
+  intros Hs Hr o Ho.
+  destruct (spec_ops_origin p d o Hs Ho) as [c [m [Hcm [Hvis Hmk]]]].
+  apply mk_operation_fields in Hmk as [_ [_ [Hid [_ [_ [_ [Hpar _]]]]]]].
+  assert (Hin : In (c, m) (routes_of p)) by (apply in_routes_of; exact Hcm).
+  pose proof (router_params_sound e p hs Hr) as HF.
+  destruct (Forall2_In_l _ _ _ _ HF Hin) as [h [Hh Hok]]. simpl in Hok.
+  destruct (handler_params_sound e m (fst h) (snd h) Hok) as [HP _].
+  exists c, m, h. repeat split; auto.
+  intros dp Hdp. rewrite Hpar, gen_params_by_text in Hdp.
+  apply in_map_iff in Hdp as [prm [Edp Hprm]]. apply filter_In in Hprm as [Hprm Hloc].
+  unfold in_url_or_header in Hloc. apply andb_true_iff in Hloc as [Hctx Hloc].
+  apply negb_true_iff in Hctx.
+  assert (Hreal : In prm (filter (fun q => negb (pa_ctx q)) (m_params m))).
+  { apply filter_In. split; auto. rewrite Hctx; reflexivity. }
+  destruct (Forall2_In_l _ _ _ _ HP Hreal) as [t [Ht Htok]].
+  assert (Hnb : loc_eqb (pa_loc prm) LBody = false).
+  { destruct (pa_loc prm); simpl in *; try reflexivity; discriminate. }
+  exists prm, t. subst dp. unfold param_by_text; simpl.
+  repeat split; auto.
+  - intros w Hw. apply (tparam_ok_wire e prm t Htok Hnb w Hw).
+  - unfold tparam_ok in Htok. rewrite Hnb in Htok.
+    apply andb_true_iff in Htok as [_ Htok].
+    apply andb_true_iff in Htok as [Htok _]. apply andb_true_iff in Htok as [Htok _].
+    apply andb_true_iff in Htok as [_ Hsrc]. exact Hsrc.
+Qed.
